@@ -220,6 +220,12 @@ func run(c Sx) Result {
 			}
 			obs = append(obs, L(I(0), putsSx(ps)))
 			tag[fmt.Sprintf("prooflen%d", min(len(ps), 8))] = true
+			if len(ps) >= 16 {
+				tag[fmt.Sprintf("prooflen>=%d", min(len(ps)/16*16, 64))] = true
+			}
+			if len(ps) == 2*len(key)+1 {
+				tag[fmt.Sprintf("proofmax:keylen%d", len(key))] = true // one node per nibble plus the terminator leaf
+			}
 			if len(ref) == 0 {
 				tag["emptytrie"] = true
 				if len(ps) != 0 {
@@ -539,8 +545,198 @@ func shuffle(r *Rng, ps []put) []put {
 	return out
 }
 
+// ---- adversarially deep tries
+
+func getNib(k []byte, i int) byte {
+	if i%2 == 0 {
+		return k[i/2] >> 4
+	}
+	return k[i/2] & 15
+}
+
+func setNib(k []byte, i int, v byte) {
+	if i%2 == 0 {
+		k[i/2] = k[i/2]&0x0f | v<<4
+	} else {
+		k[i/2] = k[i/2]&0xf0 | v
+	}
+}
+
+// sibling returns a key sharing exactly i nibbles with base (differing at nibble i); the
+// bytes after the diverging one are randomised half of the time.
+func sibling(r *Rng, base []byte, i int) []byte {
+	s := common.CopyBytes(base)
+	setNib(s, i, (getNib(base, i)+1+byte(r.Intn(15)))%16)
+	if r.Bool() {
+		for j := i/2 + 1; j < len(s); j++ {
+			s[j] = byte(r.U64())
+		}
+	}
+	return s
+}
+
+// third returns a key sharing exactly i nibbles with base whose nibble i differs from both
+// base's and sib's: absent, diverging at depth i.
+func third(r *Rng, base, sib []byte, i int) []byte {
+	t := common.CopyBytes(base)
+	for {
+		v := byte(r.Intn(16))
+		if v != getNib(base, i) && v != getNib(sib, i) {
+			setNib(t, i, v)
+			return t
+		}
+	}
+}
+
+// deepVal: style 0 = every node hashed (values >= 29 bytes, 29 making the terminator-only
+// leaf exactly 32 bytes), 1 = small values (embedded leaves and embedded bottom branches),
+// 2 = mixed, 3 = around the 31/32-byte boundary of a terminator-only leaf.
+func deepVal(r *Rng, style int) []byte {
+	switch style {
+	case 0:
+		return r.Bytes(29 + r.Intn(12)*r.Intn(2))
+	case 1:
+		return r.Bytes(1 + r.Intn(3))
+	case 3:
+		return r.Bytes(27 + r.Intn(4))
+	default:
+		if r.Bool() {
+			return r.Bytes(29 + r.Intn(40))
+		}
+		return r.Bytes(1 + r.Intn(20))
+	}
+}
+
+func sampleDepths(r *Rng, total, want int, all bool) []int {
+	if all || total <= want {
+		out := make([]int, total)
+		for i := range out {
+			out[i] = i
+		}
+		return out
+	}
+	seen := map[int]bool{0: true, 1: true, total - 2: true, total - 1: true}
+	for len(seen) < want {
+		seen[r.Intn(total)] = true
+	}
+	var out []int
+	for i := 0; i < total; i++ {
+		if seen[i] {
+			out = append(out, i)
+		}
+	}
+	return out
+}
+
+// genDeep emits tries that random histories never reach: combs (a branch at EVERY nibble
+// depth of the base key: proofs of 2n+1 nodes for an n-byte key) and two-key tries whose
+// root extension has every length up to the maximal 2n-1 nibbles.
+func genDeep(r *Rng, tier string, emit func(Sx)) {
+	all := tier == "thorough"
+	for _, n := range []int{1, 2, 4, 8, 20, 32} {
+		for style := 0; style < 4; style++ {
+			if !all && n >= 20 && style >= 2 { // the model's Prove re-encodes the subtree at every path node: keep quick light
+				continue
+			}
+			base := r.Bytes(n)
+			var kvs SL
+			sibs := make([][]byte, 2*n)
+			for i := 0; i < 2*n; i++ {
+				sibs[i] = sibling(r, base, i)
+			}
+			order := make([]int, 2*n)
+			for i := range order {
+				order[i] = i
+			}
+			for i := len(order) - 1; i > 0; i-- { // insertion order must not matter
+				j := r.Intn(i + 1)
+				order[i], order[j] = order[j], order[i]
+			}
+			kvs = append(kvs, L(B(base), B(deepVal(r, style))))
+			for _, i := range order {
+				kvs = append(kvs, L(B(sibs[i]), B(deepVal(r, style))))
+			}
+			if style == 2 && r.Bool() { // base inserted last
+				kvs = append(kvs[1:], kvs[0])
+			}
+			// second trie: the comb without its base key (the base is then absent at maximal depth)
+			var kvsB SL
+			for _, e := range kvs {
+				if !bytes.Equal(AsBytes(AsList(e)[0]), base) {
+					kvsB = append(kvsB, e)
+				}
+			}
+			var qs SL
+			full := true // Prove's node list is compared for the deepest key; the other keys only prove+verify
+			ask := func(ti int, k []byte) {
+				if full {
+					qs = append(qs, L(I(0), I(int64(ti)), B(k)))
+				}
+				qs = append(qs, L(I(1), I(int64(ti)), B(k)))
+			}
+			ask(0, base) // the deepest key: 2n+1 proof nodes when nothing embeds
+			full = n < 20
+			ask(1, base)
+			want := 5
+			if n >= 20 {
+				want = 4
+				if all {
+					want = 16
+				}
+			}
+			for _, i := range sampleDepths(r, 2*n, want, all && n < 20) {
+				ask(0, sibs[i])
+				ask(0, third(r, base, sibs[i], i)) // absent, diverging at depth i
+				if i+1 < 2*n {
+					ask(0, third(r, sibs[i], sibs[i], i+1)) // absent, diverging inside the sibling's leaf key
+				}
+			}
+			ask(0, base[:n-1])                           // proper prefix of the deepest key
+			ask(0, append(common.CopyBytes(base), 0x00)) // proper extension
+			ask(0, append(common.CopyBytes(base), byte(r.Intn(256)), byte(r.Intn(256))))
+			// the maximal proof as an explicit database against both roots, and with its last node dropped
+			if A, _ := build(kvs); A != nil {
+				if ps, pan := prove(A, base); pan == "" && len(ps) > 0 {
+					qs = append(qs, L(I(2), I(0), B(base), putsSx(shuffle(r, ps))), L(I(2), I(1), B(base), putsSx(ps)),
+						L(I(2), I(0), B(base), putsSx(ps[:len(ps)-1])))
+				}
+			}
+			emit(L(L(kvs, kvsB), qs))
+		}
+		// extension chains: {base, sibling_i} has a root extension of i nibbles (maximal: 2n-1)
+		depths := sampleDepths(r, 2*n, 6, all)
+		for di := 0; di+1 < len(depths) || di == 0; di += 2 {
+			i := depths[di]
+			j := depths[min(di+1, len(depths)-1)]
+			style := r.Intn(4)
+			bi, bj := r.Bytes(n), r.Bytes(n)
+			si, sj := sibling(r, bi, i), sibling(r, bj, j)
+			ta := SL{L(B(bi), B(deepVal(r, style))), L(B(si), B(deepVal(r, style)))}
+			tb := SL{L(B(sj), B(deepVal(r, style))), L(B(bj), B(deepVal(r, style)))}
+			var qs SL
+			ask := func(ti int, k []byte) { qs = append(qs, L(I(0), I(int64(ti)), B(k)), L(I(1), I(int64(ti)), B(k))) }
+			for ti, p := range [][3]interface{}{{bi, si, i}, {bj, sj, j}} {
+				b, s, d := p[0].([]byte), p[1].([]byte), p[2].(int)
+				ask(ti, b)
+				ask(ti, s)
+				ask(ti, third(r, b, s, d)) // absent at the branch
+				if d > 0 {
+					ask(ti, third(r, b, b, r.Intn(d))) // absent: diverges inside the extension
+				}
+				if d+1 < 2*n {
+					ask(ti, third(r, b, b, d+1+r.Intn(2*n-d-1))) // absent: diverges inside the leaf key
+				}
+				ask(ti, b[:n-1])
+				ask(ti, append(common.CopyBytes(b), 0x01))
+			}
+			emit(L(L(ta, tb), qs))
+		}
+	}
+}
+
 func gen(r *Rng, tier string, emit func(Sx)) {
 	r = NewRng(r.U64())
+	genDeep(r.Fork(), tier, emit)
 	n := 450
 	if tier == "thorough" {
 		n = 6000
